@@ -78,6 +78,19 @@ pub fn run(tr: &mut Tr, seed: u64, paths_file: &str, ops: &str, full: bool, shar
         let alpha = alphabet(cfg.w, ops, full, &mut rng);
         tr.reset();
         let cap = 4100 * 8;
+        // short sessions first: the storage of a memory backend holds more than what is delivered
+        // (a vector that already had a few words, a slice), and closing must leave the rest alone
+        for (i, how) in ["flush", "drop", "into_inner"].iter().enumerate() {
+            tr.reset();
+            let mut sw = TW::new(tr, cfg, cap);
+            for _ in 0..=i {
+                sw.write_bits(tr, clean(0x5A5A_5A5A_5A5A_5A5A, cfg.w.min(64)), cfg.w.min(64));
+                sw.write_bits(tr, 1, 1);
+            }
+            sw.close(tr, how);
+            tests += 1;
+        }
+        tr.reset();
         let mut w = TW::new(tr, cfg, cap);
         let mut since_new = 0usize;
         for sp in paths.iter().filter(|p| p.w == cfg.w) {
